@@ -13,8 +13,8 @@ from ginsim import cfgtext, probes, shrink, vfs, world
 
 ID = 'C05'
 LEVEL = 'exploration'
-QUICK_RUNS = 4000
-THOROUGH_RUNS = 80000
+QUICK_RUNS = 20000
+THOROUGH_RUNS = 500000
 SHRINK_BUDGET = 250
 RULE = ('run i draws from Random("<seed>/C05/<i>") constants (dotted names with '
         'shared suffixes, invalid names, duplicates), and a history of 3-16 '
